@@ -15,7 +15,8 @@
                               OMapUpdate = in-place edits wf.inputs_map[k] = v, del, .update(...) of the
                               map object the property hands out, OOrphan / OMoveAway = a child leaves
                               by node.parent = None / = another workflow, OSetInputs = the keyword
-                              spelling wf.set_input_values) on a fresh Workflow
+                              spelling wf.set_input_values, OPull = child.pull() / child()) on a fresh
+                              Workflow
                               built with ANY pair of accepted constructor maps.  Keys are always formed
                               from the child's CURRENT label: exposes reads c_label of the state at hand.
      wfs st                   the structural invariant of reachable states *)
@@ -123,6 +124,20 @@ Theorem C15_leave_any_route : forall st l c cs, take_child l (w_children st) = S
   (forall id, In id (child_ids c) -> connected (fst (leave st l)) id = false).
 Proof. exact leave_disconnects. Qed.
 Print Assumptions C15_leave_any_route.
+
+(* pulling one child (its upstream data tree runs under temporary labels, then the child) leaves
+   children, labels, connections and maps as they were: the workflow's IO is the same dictionary,
+   key by key and channel by channel, whatever the labels look like (digits at the end included) *)
+Theorem C15_pull_keeps_io : forall st l wp,
+  same_graph st (fst (pull st l wp)) /\
+  (forall d, build_io (fst (pull st l wp)) d = build_io st d) /\
+  (forall d k id, exposes (fst (pull st l wp)) d k id <-> exposes st d k id).
+Proof.
+  intros st l wp. pose proof (pull_graph st l wp) as G. split; [exact G|]. split.
+  - intros d. now apply build_io_same.
+  - intros d k id. now apply exposes_same.
+Qed.
+Print Assumptions C15_pull_keeps_io.
 
 (* ---- run returns the dictionary of the outputs -------------------------------------------------------- *)
 Theorem C15_return : forall st kw st' ret, run_wf st kw = (st', RRet ret) ->
@@ -285,3 +300,14 @@ Example C15_leave_and_typed_keywords :
   snd (run_wf st [("a__x", enc 2 0)]) = RRet [("b__y", Some (enc 2 2))] /\
   snd (run_wf st [("a__x", enc 1 0)]) = RRet [("b__y", Some (enc 0 2))].
 Proof. vm_compute. repeat split; reflexivity. Qed.
+
+(* pulling the last of three chained children whose labels end in digits: same keys before and
+   after, the upstream values arrive (0+1+1+1 = 3), and the workflow forgets its remembered inputs *)
+Example C15_pull_digit_labels :
+  let st := hist [OAdd 0 "step8"; OAdd 0 "n0"; OAdd 0 "last";
+                  OConnect "n0" "x" "step8" "y"; OConnect "last" "x" "n0" "y"; ORun []] in
+  let st' := fst (pull st "last" false) in
+  build_io st DIn = Some [("step8__x", 0)] /\ build_io st' DIn = Some [("step8__x", 0)] /\
+  build_io st' DOut = Some [("last__y", 5)] /\ val st' 5 = Some (enc 0 3) /\
+  w_cache st <> None /\ w_cache st' = None.
+Proof. vm_compute. repeat split; try reflexivity. discriminate. Qed.
